@@ -21,7 +21,10 @@ COMPONENTS = {"real": ["out_netcdf.Output (write, write_particle_variables, crea
                        "TimeKeeper.nctime", "Model loop", "netCDF4 on tmpfs"],
               "stub": ["synthetic ocean files", "scripted IBM"]}
 ASSUMPTIONS = ["lon/lat output values are judged by C16, not here", "the history global attribute is ignored",
-               "f4 variables are compared after rounding the state value to float32"]
+               "f4 variables are compared after rounding the state value to float32",
+               "the file itself is judged on what doc/source/output.rst fixes: the global attribute type naming the layout "
+               "(ragged / orthogonal), the dimensions, each configured variable with its configured data type, time as "
+               "double; descriptive attributes are not judged"]
 TIERS = {"quick": dict(runs=900, budget_s=50, shrink=150),
          "thorough": dict(runs=100000, budget_s=900, shrink=250)}
 REQUIRED_PROBES = ["warm_start_records", "empty_record", "highest_pid_dead_at_close", "dense", "time_particle_variable", "death_between_records",
@@ -141,6 +144,32 @@ def check_run(res: Result, sc, run, d, stem: str, ref_t, warm: bool = False) -> 
                 res.add(Violation("C06.unreadable", None, "file", e, "readable"))
         if run.error is None and len(R.recs) != len(writes):
             res.add(Violation("C06.members", None, "number of records", len(R.recs), f"{len(writes)} output steps"))
+        # --- what doc/source/output.rst says about the file itself: the global attribute that tells the two layouts
+        # apart, the dimensions, every variable with the configured data type on the documented dimension, time as double
+        # (descriptive attributes are not part of the statement: LADiM drops the configured attributes of particle
+        # variables unless they mention reference_time - seen, not judged)
+        for f in R.files:
+            if run.error is not None:
+                break
+            typ = str(f.attrs.get("type", ""))
+            word = "orthogonal" if layout == "dense" else "ragged"
+            if word not in typ or f.layout != layout:
+                res.add(Violation("C06.format", None, f"{f.name}: global attribute type / dimensions",
+                                  f"{typ!r}, dimensions {sorted(f.dims)}", f"a {word} array file"))
+            if f.var_dtype.get("time") != np.dtype("f8"):
+                res.add(Violation("C06.format", None, f"{f.name}: time", str(f.var_dtype.get("time")), "double"))
+            want_dim = ("time", "particle") if layout == "dense" else ("particle_instance",)
+            for group, dim in (("ivars", want_dim), ("pvars", ("particle",))):
+                for name, nctype in out.get(group, {}).items():
+                    if layout == "dense" and name == "pid":
+                        continue
+                    if name not in f.vars:
+                        res.add(Violation("C06.format", None, f"{f.name}: variable {name}", "missing", "present"))
+                        continue
+                    if f.var_dtype[name] != np.dtype(nctype) or f.var_dims[name] != dim:
+                        res.add(Violation("C06.format", None, f"{f.name}: variable {name}",
+                                          f"{f.var_dtype[name]} {f.var_dims[name]}", f"{np.dtype(nctype)} {dim}"))
+            res.probes["file_format_judged"] += 1
         ivars = {k: t for k, t in out["ivars"].items() if k not in ("lon", "lat")}
         if layout == "dense":
             ivars.pop("pid", None)
